@@ -641,120 +641,13 @@ def check_char_tail(cx, p, evs, vis, s, sz, seen, errkind, tail_is):
 # ---- slice cursor (R1) ----------------------------------------------------------------------------
 
 def check_slice_flavor(run, F):
+    """C03.R1: the slice source against its hand-written specification (rules/handspec.py)"""
+    import glue
+    import handspec
     pc = F.crate("postcard")
-    fns = [f for f in pc.fns if (f.impl_self or "").startswith("de::flavors::Slice<") and f.dk == "AssocFn"]
-    byname = {f.name: f for f in fns}
-    for nm in ("new", "pop", "try_take_n", "finalize"):
-        if nm not in byname:
-            run.bad("R1", "de::Slice::" + nm, "method not found")
-    eng = lambda: sym.Engine(F, max_visits=2)
-    # pop
-    f = byname.get("pop")
-    if f:
-        ps = eng().run(f)
-        s = ("P", ("param", 1, f.locals[1]["ty"]))
-        cur, end = ("init", ("F", s, "cursor")), ("init", ("F", s, "end"))
-        probs = []
-        oks = errs = 0
-        for p in ps:
-            if p.ret[0] == "agg" and p.ret[3] == "Err":
-                errs += 1
-                if tbl.error_variant(F, p.ret) != "DeserializeUnexpectedEnd":
-                    probs.append("exhaustion returns %s" % sym.show(p.ret))
-                if any(e["k"] == "write" for e in p.events):
-                    probs.append("cursor moves on the error path")
-                g = grd.check_consume(p, cur, end, C(1, "usize"), False)
-                if g:
-                    probs.append(g)
-            elif p.ret[0] == "agg" and p.ret[3] == "Ok":
-                oks += 1
-                g = grd.check_consume(p, cur, end, C(1, "usize"), True)
-                if g:
-                    probs.append(g)
-                if p.ret[5][0] != ("init", ("P", cur)):
-                    probs.append("returns %s, expected the byte at the cursor" % sym.show(p.ret[5][0]))
-                wr = [e for e in p.events if e["k"] == "write"]
-                if len(wr) != 1 or wr[0]["loc"] != ("F", s, "cursor") or not _is_ptr_add(wr[0]["val"], cur, C(1, "usize")):
-                    probs.append("cursor is not advanced by exactly one")
-            else:
-                probs.append("unexpected return %s" % sym.show(p.ret))
-        if oks != 1 or errs != 1:
-            probs.append("expected one Ok and one Err path")
-        run.check(not probs, "R1", "de::Slice::pop", probs[0] if probs else "Ok(*cursor), cursor+=1 | Err(UnexpectedEnd)", f.where(), found=probs)
-    f = byname.get("try_take_n")
-    if f:
-        ps = eng().run(f)
-        s = ("P", ("param", 1, f.locals[1]["ty"]))
-        cur, end = ("init", ("F", s, "cursor")), ("init", ("F", s, "end"))
-        ct = ("param", 2, "usize")
-        probs = []
-        oks = errs = 0
-        for p in ps:
-            if p.ret[0] == "agg" and p.ret[3] == "Err":
-                errs += 1
-                if tbl.error_variant(F, p.ret) != "DeserializeUnexpectedEnd":
-                    probs.append("exhaustion returns %s" % sym.show(p.ret))
-                if any(e["k"] == "write" for e in p.events):
-                    probs.append("cursor moves on the error path")
-                g = grd.check_consume(p, cur, end, ct, False)
-                if g:
-                    probs.append(g)
-            elif p.ret[0] == "agg" and p.ret[3] == "Ok":
-                oks += 1
-                g = grd.check_consume(p, cur, end, ct, True)
-                if g:
-                    probs.append(g)
-                v = norm(p.ret[5][0])
-                if not (v[0] == "call" and v[2] == "std::slice::from_raw_parts" and v[3] == (cur, ct)):
-                    probs.append("returns %s, expected from_raw_parts(cursor, ct)" % sym.show(v))
-                wr = [e for e in p.events if e["k"] == "write"]
-                if len(wr) != 1 or wr[0]["loc"] != ("F", s, "cursor") or not _is_ptr_add(wr[0]["val"], cur, ct):
-                    probs.append("cursor is not advanced by exactly ct")
-            else:
-                probs.append("unexpected return %s" % sym.show(p.ret))
-        if oks != 1 or errs != 1:
-            probs.append("expected one Ok and one Err path")
-        run.check(not probs, "R1", "de::Slice::try_take_n", probs[0] if probs else "Ok([cursor,cursor+ct)), cursor+=ct | Err(UnexpectedEnd)", f.where(), found=probs)
-    f = byname.get("finalize")
-    if f:
-        ps = eng().run(f)
-        probs = []
-        slf = ("param", 1, f.locals[1]["ty"])
-        cur, end = ("getf", slf, "cursor"), ("getf", slf, "end")
-        if len(ps) != 1:
-            probs.append("expected one path")
-        else:
-            v = norm(ps[0].ret[5][0]) if ps[0].ret[0] == "agg" and ps[0].ret[3] == "Ok" else None
-            okv = False
-            if v and v[0] == "call" and v[2] == "std::slice::from_raw_parts" and v[3][0] == cur:
-                try:
-                    a = lin.ge(v[3][1], ("bin", "Sub", ("cast", "PointerExposeProvenance", end, "", "usize"), ("cast", "PointerExposeProvenance", cur, "", "usize"), "usize"))
-                    okv = not a.co and a.c == 0
-                except Exception:
-                    okv = False
-            if not okv:
-                probs.append("remainder is %s, expected from_raw_parts(cursor, end - cursor)" % sym.show(ps[0].ret))
-        run.check(not probs, "R1", "de::Slice::finalize", probs[0] if probs else "Ok([cursor,end))", f.where(), found=probs)
-    f = byname.get("new")
-    if f:
-        ps = eng().run(f)
-        probs = []
-        if len(ps) != 1 or ps[0].ret[0] != "agg":
-            probs.append("unexpected shape")
-        else:
-            r = ps[0].ret
-            fl = dict(zip(r[4], r[5]))
-            sl = ("param", 1, f.locals[1]["ty"])
-            c_ = lin.atom_of(norm(fl.get("cursor")))
-            if c_ != ("pure", "as_ptr", (sl,)):
-                probs.append("cursor does not start at the slice's first byte")
-            try:
-                d = lin.ge(norm(fl.get("end")), norm(fl.get("cursor")))
-                if d.co != {("pure", "len", (sl,)): 1} or d.c != 0:
-                    probs.append("end is not cursor + len")
-            except Exception as e:
-                probs.append("end not linear in the slice (%s)" % e)
-        run.check(not probs, "R1", "de::Slice::new", probs[0] if probs else "cursor=as_ptr, end=as_ptr+len", f.where(), found=probs)
+    ren = glue.renames(F, pc, glue.load2("A"))
+    handspec.check(run, "R1", F, pc, [k for k in handspec.HAND if k.startswith("<de::flavors::Slice<")],
+                   "slice source: exact guard, hands out [cursor, cursor+n), advances by n, nothing moves on failure", renames=ren)
 
 
 def _is_ptr_add(v, base, n):
@@ -778,7 +671,7 @@ def run(run_, ctx):
         check_method(run_, F, helpers, f)
     run_.floor("T1", 40)
     check_slice_flavor(run_, F)
-    run_.floor("R1", 4)
+    run_.floor("R1", 5)
     for (kind, canon, *rest), (info, why) in sorted(helpers.memo.items(), key=lambda kv: str(kv[0])):
         if kind in ("R", "ZD"):
             nm = {"R": "varint reader (accept set, value, consumption)", "ZD": "inverse zig-zag map"}[kind]
